@@ -149,6 +149,9 @@ fn addr(req: &Value) -> R {
         },
         |b| json!({"string": b.to_string().unwrap_or_default(), "hash": hex::encode(b.to_pubkey_hash())}),
     );
+    // value-level equality (the library's own ==) with the address parsed back from its string / restored from its serde form
+    o["reparse_eq"] = sub(|| a.to_string().and_then(|s| P2PKHAddress::from_string(&s)), |b| json!(b == a));
+    o["serde_eq"] = sub(|| serde_json::to_string(&a).and_then(|t| serde_json::from_str::<P2PKHAddress>(&t)), |b| json!(b == a));
     // string round trip through the parser
     o["reparse"] = sub(|| a.to_string().and_then(|s| P2PKHAddress::from_string(&s)).and_then(|b| b.to_string().map(|s| (s, b.to_pubkey_hash()))), |(s, hsh)| json!({"string": s, "hash": hex::encode(hsh)}));
     if let Some(pkb) = hx_opt(req, "unlock_pub")? {
